@@ -7,6 +7,7 @@ package main
 import (
 	"bytes"
 	"fmt"
+	"os"
 	"sort"
 	"strings"
 	"time"
@@ -15,6 +16,7 @@ import (
 	"go.brendoncarroll.net/p2p/p/p2pke"
 
 	"verifmc/evid"
+	"verifmc/explore"
 	"verifmc/pk"
 	"verifmc/seqmc"
 )
@@ -355,7 +357,7 @@ func (w *world) key() string {
 	return sb.String()
 }
 
-func explore(u universe, maxDepth, maxStates int) {
+func exploreUniverse(u universe, maxDepth, maxStates int) {
 	acts := alphabet(u)
 	names := func(path []int) []string {
 		var out []string
@@ -424,25 +426,51 @@ var devBudget = 1
 var allExhaustive = true
 var caps []string
 
+func channelScenarios() []*explore.Scenario {
+	return []*explore.Scenario{
+		rotationScenario(1), rotationScenario(2),
+		concurrentSendScenario(evid.Pick(run, 2, 3)),
+		sessionConcurrentSendScenario(2, evid.Pick(run, 3, 6)),
+		sessionConcurrentSendScenario(3, evid.Pick(run, 2, 4)),
+		attackerSessionScenario(evid.Pick(run, 6, 8)),
+		attackerChannelScenario(evid.Pick(run, 7, 9)),
+	}
+}
+
 func main() {
 	run = evid.Start("C02", "model_checking")
+	if os.Getenv("VERIF_SHARD") != "" || run.ReplayFile() != "" {
+		// worker / replay mode: only the channel-level scenarios
+		explore.Main(run, channelScenarios(), time.Minute)
+		run.Finish()
+	}
 	if run.Thorough() {
 		devBudget = 2
-		explore(universe{sessions: 2, maxSend: 2, name: "honest-pair"}, 60, 3000000)
-		explore(universe{sessions: 4, maxSend: 1, name: "two-pairs-same-keys"}, 60, 1500000)
-		explore(universe{sessions: 2, maxSend: 2, mutate: true, name: "honest-pair+mutations"}, 60, 1500000)
-		explore(universe{sessions: 2, maxSend: 3, limit: true, name: "counter-limit"}, 60, 1500000)
+		exploreUniverse(universe{sessions: 2, maxSend: 2, name: "honest-pair"}, 60, 3000000)
+		exploreUniverse(universe{sessions: 4, maxSend: 1, name: "two-pairs-same-keys"}, 60, 1500000)
+		exploreUniverse(universe{sessions: 2, maxSend: 2, mutate: true, name: "honest-pair+mutations"}, 60, 1500000)
+		exploreUniverse(universe{sessions: 2, maxSend: 3, limit: true, name: "counter-limit"}, 60, 1500000)
 	} else {
-		explore(universe{sessions: 2, maxSend: 2, name: "honest-pair"}, 40, 300000)
-		explore(universe{sessions: 4, maxSend: 1, name: "two-pairs-same-keys"}, 14, 40000)
-		explore(universe{sessions: 2, maxSend: 2, mutate: true, name: "honest-pair+mutations"}, 14, 30000)
-		explore(universe{sessions: 2, maxSend: 3, limit: true, name: "counter-limit"}, 16, 40000)
+		exploreUniverse(universe{sessions: 2, maxSend: 2, name: "honest-pair"}, 40, 300000)
+		exploreUniverse(universe{sessions: 4, maxSend: 1, name: "two-pairs-same-keys"}, 14, 40000)
+		exploreUniverse(universe{sessions: 2, maxSend: 2, mutate: true, name: "honest-pair+mutations"}, 14, 30000)
+		exploreUniverse(universe{sessions: 2, maxSend: 3, limit: true, name: "counter-limit"}, 16, 40000)
 	}
+	bfsStates, bfsTrans := run.Get("states"), run.Get("transitions")
+	// channel level: rotation + replay (deterministic scripts) and concurrent Send (all
+	// interleavings within the preemption bound), on the instrumented code
+	scs := channelScenarios()
+	explore.Main(run, scs, evid.Pick(run, 60*time.Second, 10*time.Minute))
+	run.Set("states", run.Get("states")+bfsStates)
+	run.Set("transitions", run.Get("transitions")+bfsTrans)
 	run.Set("traces_validated_against_impl", run.Get("transitions"))
+	if e, ok := run.Cov["exhaustive"].(bool); ok && !e {
+		allExhaustive = false
+	}
 	run.Set("exhaustive", allExhaustive)
 	run.Set("caps_hit", caps)
 	run.Set("deviation_budget", devBudget)
-	run.Set("explanation", "BFS over adversary actions (deliver any pooled message to any session, mutated deliveries, send, expire, counter jump) on real Session objects; every transition re-executes the implementation; state key = per-session (handshake index, counter, sends, delivered payloads) + symbolic pool + expiry")
+	run.Set("explanation", "Session level: BFS over adversary actions (deliver any pooled message to any session, mutated deliveries, send, expire, counter jump) on real Session objects; every transition re-executes the implementation; state key = per-session (handshake index, counter, sends, delivered payloads) + symbolic pool + expiry")
 	run.Assume("ChaCha20-Poly1305, X25519, Ed25519 and the replay bitmap beyond the small counters exercised; channel-level rotation is covered by the Channel scenarios of C05/C07")
 	run.Finish()
 }
